@@ -11,12 +11,12 @@ def demoActs : List Action :=
     .recvReqVote 1 (.reqVote 1 0 1 0 0),
     .recvVote 0 (.vote 1 1 0),
     .clientAppend 0 7,
-    .sendAppend 0 1 0 2,
+    .sendAppend 0 1 0 2 0,
     .recvAppend 1 (.append 1 0 1 0 0 [⟨1, 0⟩, ⟨1, 7⟩] 0),
     .recvAck 0 (.ack 1 1 0 2),
     .advanceCommit 0 2,
     .apply 0, .apply 0,
-    .sendAppend 0 1 2 0,
+    .sendAppend 0 1 2 0 2,
     .recvAppend 1 (.append 1 0 1 2 1 [] 2),
     .apply 1, .apply 1 ]
 
